@@ -1,4 +1,5 @@
 import HexProofs.Framework.Schedule
+import HexProofs.Framework.Gen.ObjectHADemo
 import HexProofs.Framework.Gen.ChainMoreDemo
 import HexProofs.Framework.Fill
 import HexProofs.Framework.Kinds.All
@@ -468,5 +469,113 @@ example := @Hex.Chain.DemoMore.depRSI
 example := @Hex.Chain.DemoMore.depBB
 example := @Hex.Chain.DemoMore.depSMAm
 example := @Hex.Chain.DemoMore.demoChain3
+
+
+/-! ### Heikin-Ashi managers (HexProofs/Framework/Gen/ObjectHA.lean) -/
+
+variable {F : Type} [PyF F]
+
+/-- **C01 on any manager spec** (`M : MgrSpec F`: base timeframe, collapsing timeframe, timeframe + fill, and the three
+Heikin-Ashi specs `MgrSpec.ha`, `MgrSpec.tfHA`, `MgrSpec.fillHA`), all 27 classes: if the live history returns, the
+batch run over the concatenated stream returns the same candles. -/
+theorem C01_trees_mgr (k : Kind F) (name : String) (round : Nat) (hk : CoveredTreeX name k) (M : MgrSpec F)
+    (init : List (Candle F)) (chunks : List (List (Candle F))) (hok : M.Ok (init ++ chunks.flatten))
+    (snap : List (Candle F))
+    (hlive : candlesOf (runIndicator (mkTop k name round) M.cfg init chunks) = .ok snap) :
+    candlesOf (runBatch (mkTop k name round) M.cfg (init ++ chunks.flatten)) = .ok snap :=
+  Hex.C01_trees_mgr hk round M init chunks hok snap hlive
+
+/-- **C01 on a Heikin-Ashi manager** `{ ha := true }` (raw stream reading-free and unconverted) -/
+theorem C01_trees_ha (k : Kind F) (name : String) (round : Nat) (hk : CoveredTreeX name k)
+    (init : List (Candle F)) (chunks : List (List (Candle F))) (hraw : RawHAPlain (init ++ chunks.flatten))
+    (snap : List (Candle F))
+    (hlive : candlesOf (runIndicator (mkTop k name round) { ha := true } init chunks) = .ok snap) :
+    candlesOf (runBatch (mkTop k name round) { ha := true } (init ++ chunks.flatten)) = .ok snap :=
+  Hex.C01_trees_ha hk round init chunks hraw snap hlive
+
+/-- **C01 on any Heikin-Ashi manager**: any timeframe or none, gap filling off or on (configuration as in `C01_trees`
+with `candlestick_type = Heikin-Ashi`; raw stream `RawTfHA`: stamped, sorted, reading-free, unconverted) -/
+theorem C01_trees_haCfg (tf : Option Int) (htf : ∀ t, tf = some t → 0 < t) (fill : Bool) (k : Kind F)
+    (name : String) (round : Nat) (hk : CoveredTreeX name k)
+    (init : List (Candle F)) (chunks : List (List (Candle F)))
+    (hraw : RawTfHA (init ++ chunks.flatten)) (snap : List (Candle F))
+    (hlive : candlesOf (runIndicator (mkTop k name round) { tf := tf, fill := fill && tf.isSome, ha := true }
+      init chunks) = .ok snap) :
+    candlesOf (runBatch (mkTop k name round) { tf := tf, fill := fill && tf.isSome, ha := true }
+      (init ++ chunks.flatten)) = .ok snap :=
+  Hex.C01_trees_haCfg hk round tf htf fill init chunks hraw snap hlive
+
+/-- the batch run on any Heikin-Ashi manager returns iff the row-major run over the CONVERTED collapsed (filled) stream
+does, with the same candles -/
+theorem batch_iff_rowMajor_trees_haCfg (k : Kind F) (name : String) (round : Nat) (hk : CoveredTreeX name k) :
+    ∃ T : TreeSpec (mkTop k name round), ∀ (tf : Option Int) (htf : ∀ t, tf = some t → 0 < t) (fill : Bool)
+      (stream : List (Candle F)), RawTfHA stream → ∀ out,
+      candlesOf (runBatch (mkTop k name round) { tf := tf, fill := fill && tf.isSome, ha := true } stream)
+          = .ok out ↔
+        Gen.rowMajor T.S (haSpec ((mgrSpecOf F tf htf fill).spec stream)) = .ok out :=
+  Hex.batch_iff_rowMajor_trees_haCfg hk round
+
+open Hex.Chain in
+/-- **Chains of any length, every class, on `{ ha := true }`** (shape of `C01_chain_more`) -/
+theorem C01_chain_more_ha {ts : List (Ind F)} (h : CoveredChain [] ts) (tfn : Option String)
+    (init : List (Candle F)) (chunks : List (List (Candle F))) (hraw : RawHAPlain (init ++ chunks.flatten))
+    (H : Hexital F) (hlive : chainRun ts { ha := true } tfn init chunks = .ok H) :
+    ∃ (c : ChainCompsW [] ts) (Hb : Hexital F) (cs : List (Candle F)),
+      chainRun ts { ha := true } tfn (init ++ chunks.flatten) [] = .ok Hb ∧
+      Hb.managers = H.managers ∧ Hb.indicators.map regInfo = H.indicators.map regInfo ∧
+      H.managers = [(defaultKey, { cfg := { ha := true }, candles := cs })] ∧
+      Gen.rowMajor (chainSpecW c).S (haSpec (init ++ chunks.flatten)) = .ok cs :=
+  Hex.Chain.C01_chain_more_ha h tfn init chunks hraw H hlive
+
+open Hex.Chain in
+/-- **Chains of any length, every class, any Heikin-Ashi manager** (shape of `C01_chain_more_tf`) -/
+theorem C01_chain_more_haCfg {ts : List (Ind F)} (h : CoveredChain [] ts) (tf : Option Int)
+    (htf : ∀ t, tf = some t → 0 < t) (fill : Bool) (tfn : Option String) (init : List (Candle F))
+    (chunks : List (List (Candle F))) (hraw : RawTfHA (init ++ chunks.flatten)) (H : Hexital F)
+    (hlive : chainRun ts { tf := tf, fill := fill && tf.isSome, ha := true } tfn init chunks = .ok H) :
+    ∃ Hb, chainRun ts { tf := tf, fill := fill && tf.isSome, ha := true } tfn (init ++ chunks.flatten) [] = .ok Hb ∧
+      Hb.managers = H.managers ∧ Hb.indicators.map regInfo = H.indicators.map regInfo :=
+  Hex.Chain.C01_chain_more_haCfg h tf htf fill tfn init chunks hraw H hlive
+
+open Hex.Chain in
+/-- … with the row-major spec spelled out: the candles are the run of the chain's spec over the converted collapsed
+(filled) stream -/
+theorem C01_chain_more_haCfg_spec {ts : List (Ind F)} (h : CoveredChain [] ts) (tf : Option Int)
+    (htf : ∀ t, tf = some t → 0 < t) (fill : Bool) (tfn : Option String) (init : List (Candle F))
+    (chunks : List (List (Candle F))) (hraw : RawTfHA (init ++ chunks.flatten)) (H : Hexital F)
+    (hlive : chainRun ts { tf := tf, fill := fill && tf.isSome, ha := true } tfn init chunks = .ok H) :
+    ∃ (c : ChainCompsW [] ts) (Hb : Hexital F) (cs : List (Candle F)),
+      chainRun ts { tf := tf, fill := fill && tf.isSome, ha := true } tfn (init ++ chunks.flatten) [] = .ok Hb ∧
+      Hb.managers = H.managers ∧ Hb.indicators.map regInfo = H.indicators.map regInfo ∧
+      H.managers = [(defaultKey, { cfg := { tf := tf, fill := fill && tf.isSome, ha := true }, candles := cs })] ∧
+      Gen.rowMajor (chainSpecW c).S (haSpec ((mgrSpecOf F tf htf fill).spec (init ++ chunks.flatten))) = .ok cs :=
+  Hex.Chain.C01_chain_more_haCfg_spec h tf htf fill tfn init chunks hraw H hlive
+
+open Hex.Chain in
+/-- **a source member and a dependent member of any covered class, any Heikin-Ashi manager** (shape of `C01_pair_more`) -/
+theorem C01_pair_more_haCfg (tf : Option Int) (htf : ∀ t, tf = some t → 0 < t) (fill : Bool)
+    {nameA : String} {kA : Kind F} (hA : SrcVia nameA kA) (roundA : Nat)
+    {main nameB : String} {kB : Kind F} (hB : DepVia main nameB kB) (roundB : Nat)
+    (hmain : main ∈ (mkTop kA nameA roundA).allNames)
+    (hdis : ∀ x ∈ (mkTop kA nameA roundA).allNames, x ∉ (mkTop kB nameB roundB).allNames)
+    (tfn : Option String) (init : List (Candle F)) (chunks : List (List (Candle F)))
+    (hraw : RawTfHA (init ++ chunks.flatten)) (H : Hexital F)
+    (hlive : pairRun (mkTop kA nameA roundA) (mkTop kB nameB roundB)
+      { tf := tf, fill := fill && tf.isSome, ha := true } tfn init chunks = .ok H) :
+    ∃ Hb, pairRun (mkTop kA nameA roundA) (mkTop kB nameB roundB)
+        { tf := tf, fill := fill && tf.isSome, ha := true } tfn (init ++ chunks.flatten) [] = .ok Hb ∧
+      Hb.managers = H.managers :=
+  Hex.Chain.C01_pair_more_haCfg tf htf fill hA roundA hB roundB hmain hdis tfn init chunks hraw H hlive
+
+/-- non-vacuity (HexProofs/Framework/Gen/ObjectHADemo.lean, `decide +kernel` there): KC on `{ ha := true }`,
+`{ tf := some 120, ha := true }`, `{ tf := some 120, fill := true, ha := true }` over one-minute candles (converted OHLC
+different from the raw / collapsed ones), the chain SMA_2 → RSI_2 → EMA_3 on Heikin-Ashi managers -/
+example := @Hex.ObjHADemo.sched_raw
+example := @Hex.ObjHADemo.chunks6_raw
+
+#print axioms C01_trees_mgr
+#print axioms C01_trees_ha
+#print axioms C01_trees_haCfg
+#print axioms C01_chain_more_haCfg
 
 end Hex.C01
